@@ -331,6 +331,7 @@ pub fn run_calls(b: &mut Built, sc: &Scenario, spec: &StratSpec, seed: u64, repl
             }
             let first_seq = ctx.events.lock().unwrap().len() as u64;
             ctx.emit(Ev::CallBegin, usize::MAX, ci as u64);
+            ctx.dispatching.store(true, Ordering::SeqCst);
             let mut do_call = || match call {
                 Call::Dispatch => disp.dispatch(world),
                 #[cfg(feature = "par")]
@@ -359,6 +360,8 @@ pub fn run_calls(b: &mut Built, sc: &Scenario, spec: &StratSpec, seed: u64, repl
             };
             #[cfg(not(feature = "par"))]
             let r = catch_unwind(AssertUnwindSafe(&mut do_call));
+            ctx.dispatching.store(false, Ordering::SeqCst);
+            ctx.reap_pending();
             let panic = r.err().map(|p| crate::util::payload_string(&p));
             ctx.emit(if panic.is_some() { Ev::CallPanic } else { Ev::CallEnd }, usize::MAX, ci as u64);
             let last_seq = ctx.events.lock().unwrap().len() as u64;
